@@ -364,7 +364,7 @@ def replay(job, replay_root):
     if job.unwindset:
         cmd += ["-Z", "unstable-options", "--cbmc-args", "--unwindset", job.unwindset]
     p = subprocess.run(cmd, cwd=crate_dir(job), env=env, stdout=subprocess.PIPE, stderr=subprocess.STDOUT, text=True,
-                       preexec_fn=_limit(max(job.mem_gb * 2, 16)), timeout=job.timeout * 2 + 600)
+                       preexec_fn=_limit(max(job.mem_gb * 3, 48)), timeout=job.timeout * 2 + 600)  # kani-driver needs far more memory than CBMC to turn a long trace into a test
     open(os.path.join(art, "playback-gen.log"), "w").write(p.stdout)
     blocks = re.findall(r"((?:///[^\n]*\n|\n)*#\[test\]\nfn (kani_concrete_playback_\w+)\(\) \{.*?\n\}\n)", p.stdout, re.S)
     tests, code = [], []
